@@ -81,3 +81,40 @@ pub enum ErrB<'a> {
 #[derive(Debug, Clone, PartialEq, ReplyError)]
 #[zlink(interface = "org.example", crate = "zlink_core")]
 pub enum ErrNone {}
+
+/// A method type that records every member it is shown (to observe what `Call` passes through).
+#[derive(Debug, Clone, PartialEq, Serialize, Deserialize)]
+pub struct SeenAll {
+    pub method: String,
+    #[serde(flatten)]
+    pub rest: std::collections::BTreeMap<String, serde_json::Value>,
+}
+
+/// Derived error enum with several renamed fields, a borrowed optional, a list and a nested struct.
+#[derive(Debug, Clone, PartialEq, ReplyError)]
+#[zlink(interface = "com.example.deep.iface", crate = "zlink_core")]
+pub enum ErrC<'a> {
+    Gone,
+    Quota {
+        #[zlink(rename = "maxBytes")]
+        max_bytes: u64,
+        #[zlink(rename = "user-name")]
+        user_name: &'a str,
+        hint: Option<&'a str>,
+    },
+    Many {
+        items: Vec<String>,
+        nested: StrictParams,
+        ratio: f64,
+        flag: bool,
+    },
+    AlsoGone,
+}
+
+/// A small proxy with a unit-output and a struct-output method.
+#[zlink_core::proxy(interface = "org.example.Px", crate = "zlink_core")]
+pub trait PxProxy {
+    async fn ping(&mut self) -> zlink_core::Result<Result<(), ErrA>>;
+    async fn touch(&mut self, key: &str) -> zlink_core::Result<Result<(), ErrNone>>;
+    async fn get(&mut self, key: &str) -> zlink_core::Result<Result<OptParams, ErrA>>;
+}
